@@ -90,7 +90,7 @@ func gen(t *rapid.T) Case {
 	c.Processors = rapid.IntRange(1, 3).Draw(t, "processors")
 	c.Trace = rapid.Bool().Draw(t, "runtime_trace")
 	ng := rapid.IntRange(2, 8).Draw(t, "goroutines")
-	kinds := []string{"end", "end", "end", "endts", "attrs", "attrs", "attrs", "event", "event", "link", "error", "status", "name", "isrec", "child", "child", "tracer", "regproc", "unregproc", "flush"}
+	kinds := []string{"end", "end", "end", "endts", "attrs", "attrs", "attrs", "event", "event", "link", "error", "status", "name", "isrec", "child", "child", "tracer", "regproc", "unregproc", "flush", "panicerror"}
 	if rapid.IntRange(0, 2).Draw(t, "rec_only_spans") == 0 {
 		c.RecOnly = rapid.IntRange(1, 1<<c.Spans-1).Draw(t, "rec_only")
 	}
@@ -111,6 +111,9 @@ func gen(t *rapid.T) Case {
 				op.C = rapid.IntRange(1, 2).Draw(t, "code")
 			case "child":
 				op.C = rapid.SampledFrom([]int{0, 0, 1, 2}).Draw(t, "child_decision")
+				// N odd: the child is started through a tracer of a SECOND
+				// TracerProvider (the shared span still is its parent)
+				op.N = rapid.SampledFrom([]int{0, 0, 0, 1}).Draw(t, "other_provider")
 			case "racychild":
 				op.C = rapid.IntRange(0, 3).Draw(t, "sharer_action")
 			}
@@ -216,9 +219,14 @@ type opRec struct {
 	g, i       int
 	start, end int64
 	tag        string
-	recAfter   bool // IsRecording() observed right after the op (end ops)
+	recAfter   bool         // IsRecording() observed right after the op (end ops)
 	child      trace.SpanID // child / racychild: the span the op started
 }
+
+// panicErr is an error whose Error method dereferences its nil receiver.
+type panicErr struct{ msg string }
+
+func (e *panicErr) Error() string { return e.msg }
 
 // shareProcessor hands the children named child.racy.<action>.* it sees in
 // OnStart to a goroutine of its own: that goroutine mutates the span and Ends
@@ -312,6 +320,12 @@ func runOnce(c Case) ([]vk.Violation, map[string]bool) {
 	}
 	tp := sdktrace.NewTracerProvider(opts...)
 	tr := tp.Tracer("c10")
+	// a second provider in the same process: children started through its
+	// tracer have the shared span as parent all the same (and are delivered to
+	// ITS processor, not to the first provider's)
+	proc2 := &recProcessor{clock: clock, ends: map[trace.SpanID][]delivery{}}
+	tp2 := sdktrace.NewTracerProvider(sdktrace.WithRawSpanLimits(unlimited()), sdktrace.WithSampler(nameSampler{}), sdktrace.WithSpanProcessor(proc2))
+	tr2 := tp2.Tracer("c10.other")
 	// every regproc op registers a processor of its own (a processor registered
 	// twice is legitimately delivered to twice); unregproc removes the one the
 	// same goroutine registered last.
@@ -363,6 +377,14 @@ func runOnce(c Case) ([]vk.Violation, map[string]bool) {
 				sp.AddLink(trace.Link{SpanContext: trace.NewSpanContext(trace.SpanContextConfig{TraceID: trace.TraceID{9}, SpanID: sid}), Attributes: kvs(op.N)})
 			case "error":
 				sp.RecordError(errors.New("err." + r.tag))
+			case "panicerror":
+				// a failing collaborator: the error's Error method panics (typed
+				// nil pointer) and the caller recovers; the span must stay usable
+				func() {
+					defer func() { _ = recover() }()
+					var pe *panicErr
+					sp.RecordError(pe)
+				}()
 			case "status":
 				sp.SetStatus(codes.Code(op.C), "st."+r.tag)
 			case "name":
@@ -370,7 +392,11 @@ func runOnce(c Case) ([]vk.Violation, map[string]bool) {
 			case "isrec":
 				_ = sp.IsRecording()
 			case "child":
-				_, ch := tr.Start(ctxs[op.S], [...]string{"child.", "child.drop.", "child.recordonly."}[op.C%3]+r.tag)
+				ctr := tr
+				if op.N%2 == 1 {
+					ctr = tr2
+				}
+				_, ch := ctr.Start(ctxs[op.S], [...]string{"child.", "child.drop.", "child.recordonly."}[op.C%3]+r.tag)
 				r.end = clock.Tick() // Start returned
 				r.child = ch.SpanContext().SpanID()
 				ch.End()
@@ -629,13 +655,21 @@ func runOnce(c Case) ([]vk.Violation, map[string]bool) {
 		if r.op.K == "child" && r.op.C%3 == 1 {
 			want = 0
 		}
-		for pi, p := range procs {
+		other := r.op.K == "child" && r.op.N%2 == 1
+		for pi, p := range append(append([]*recProcessor{}, procs...), proc2) {
+			w := want
+			if other != (pi == len(procs)) { // the provider the child was NOT started through
+				w = 0
+			}
 			p.mu.Lock()
 			n := len(p.ends[r.child])
 			p.mu.Unlock()
-			if n != want {
-				bad("child_delivery_count", "%s %s of span %d (decision %d) was delivered %d time(s) to processor %d, expected %d", r.op.K, r.tag, r.op.S, r.op.C, n, pi, want)
+			if n != w {
+				bad("child_delivery_count", "%s %s of span %d (decision %d, second provider %v) was delivered %d time(s) to processor %d, expected %d", r.op.K, r.tag, r.op.S, r.op.C, other, n, pi, w)
 			}
+		}
+		if other {
+			classes["child_started_through_a_second_provider"] = true
 		}
 		if r.op.K == "racychild" {
 			classes["child_shared_from_OnStart_and_ended_by_two_goroutines"] = true
@@ -836,7 +870,7 @@ func runRace(c RaceCase) ([]vk.Violation, vk.Info) {
 func TestEndRace(t *testing.T) {
 	vk.Run(t, vk.Spec[RaceCase]{
 		Property: "C10", Check: "end_race",
-		Rule: "G=2..6 goroutines all call End (plain or with a goroutine-specific timestamp) on each of N=20..60 shared spans, released together span by span through a spin barrier, 0..2 goroutines mutating the spans meanwhile, runtime/trace mostly on; every case is non-trivial (N G-way End races); distinct = distinct parameter tuples",
+		Rule:  "G=2..6 goroutines all call End (plain or with a goroutine-specific timestamp) on each of N=20..60 shared spans, released together span by span through a spin barrier, 0..2 goroutines mutating the spans meanwhile, runtime/trace mostly on; every case is non-trivial (N G-way End races); distinct = distinct parameter tuples",
 		Quick: 250, Thorough: 4000,
 		Gen: genRace, Run: runRace, Repeat: 200,
 		CaseTimeout: 60 * time.Second,
